@@ -17,18 +17,33 @@
    Deliver (the caller gets the outcome).  Probes record what format_asynq_stack() called inside level i must
    list: the task and each task that created it, outermost first.
 
+   Session: before the chain, zero or one EARLIER top-level computation runs on the same thread (tasks P1 -> P2,
+   P2 awaits a batch item) and ends in one of: value / exception from a task / exception from the batch flush /
+   an AsyncContext whose resume() raises when the suspended P2 is continued after the flush / an AsyncContext
+   whose pause() raises when P2 is suspended / the NonAsyncContext assertion; the error is handled by the
+   awaiting task P1 ("task") or by the caller ("caller").  `active` is the task whose body is executing (what a
+   newly created task records as its creator).  However a computation ends, no task is executing afterwards: the
+   tasks of the later computation are created by that computation's own tasks only.
+
    Prescriptions (the property): the exception that reaches the caller has a traceback with one frame per task
-   level, in call order, ending at the raising frame; format_asynq_stack() = creator chain, outermost first.
-   Nothing is prescribed for __context__/__cause__ or for the text of the frames. *)
+   level, in call order, ending at the raising frame; format_asynq_stack() = creator chain, outermost first -
+   exactly the computation's own tasks, nothing from an earlier computation.
+   Nothing is prescribed for __context__/__cause__, for the text of the frames or for the outcome of the
+   earlier computation. *)
 EXTENDS Integers, Sequences, FiniteSets, TLC, Json, IOUtils
 
 EnvInt(n, dflt) == IF n \in DOMAIN IOEnv THEN atoi(IOEnv[n]) ELSE dflt
 MaxD == EnvInt("MAXD", 4)
 Deep == EnvInt("DEEP", 0)            \* > 0: only chains of depth Deep, Deep \div 2 with at most one handler
+PriorD == EnvInt("PRIORD", 3)        \* chains of depth <= PriorD are also run after every kind of earlier computation
+Stale == EnvInt("STALE", 0)          \* non-vacuity switch: 1 = a failed resume() leaves P2 active (TLC then refutes the stack invariants)
 
 Modes == {"pass", "reraise", "new", "catch"}
 Styles == {"plain", "list", "helper"}
 NoTask == 0 - 9
+Priors == {"value", "task_exc", "flush_exc", "resume_raises", "pause_raises", "nonasync"}
+P1 == 1001                           \* the tasks of the earlier computation
+P2 == 1002
 
 (* below a `catch` nothing is in flight any more: the modes of the levels above it are irrelevant (all pass) *)
 ModeSets(r) == IF Deep = 0
@@ -39,38 +54,63 @@ Depths == IF Deep = 0 THEN 1..MaxD ELSE {Deep, Deep \div 2}
 Raisers(d) == IF Deep = 0 THEN 1..d ELSE {1, d \div 2, d} \cap (1..d)
 
 VARIABLES d, r, mode, sync, style, outer,     \* the chain (chosen in Init)
-          pc, lvl, creator, exc, probes, outcome
-vars == <<d, r, mode, sync, style, outer, pc, lvl, creator, exc, probes, outcome>>
+          prior, phandled,                     \* the earlier computation of the session (chosen in Init)
+          pc, lvl, active, creator, exc, probes, outcome
+vars == <<d, r, mode, sync, style, outer, prior, phandled, pc, lvl, active, creator, exc, probes, outcome>>
+cfgvars == <<d, r, mode, sync, style, outer, prior, phandled>>
 
 NoExc == [kind |-> "none", origin |-> 0, tb |-> <<>>]
 
 Init == /\ d \in Depths /\ r \in Raisers(d) /\ mode \in ModeSets(r)
         /\ sync \in {0, 1} /\ style \in (IF Deep = 0 THEN Styles ELSE {"plain"}) /\ outer \in (IF Deep = 0 THEN {0, 1} ELSE {0})
-        /\ pc = "down" /\ lvl = 1 - outer
-        /\ creator = [i \in 0..d |-> NoTask]
+        /\ prior \in (IF Deep = 0 /\ d <= PriorD THEN {"none"} \cup Priors ELSE {"none"})
+        /\ phandled \in (IF prior \in {"none", "value"} THEN {"-"} ELSE {"task", "caller"})
+        /\ pc = (IF prior = "none" THEN "down" ELSE "prior") /\ lvl = 1 - outer
+        /\ active = NoTask
+        /\ creator = [i \in (0..d) \cup {P1, P2} |-> NoTask]
         /\ exc = NoExc /\ probes = <<>> /\ outcome = <<"pending">>
 
 RECURSIVE Chain(_, _)
 Chain(cr, i) == IF cr[i] = NoTask THEN <<i>> ELSE Chain(cr, cr[i]) \o <<i>>
-Probe(i, where) == [lvl |-> i, at |-> where, stack |-> Chain(creator, i)]
+Probe(cr, i, where) == [lvl |-> i, at |-> where, stack |-> Chain(cr, i)]
 Probed(i) == Deep = 0 \/ i \in {1, d \div 2, d}          \* deep chains: format_asynq_stack() only at three levels
-AddProbe(i, where) == IF Probed(i) THEN Append(probes, Probe(i, where)) ELSE probes
+AddProbe(cr, i, where) == IF Probed(i) THEN Append(probes, Probe(cr, i, where)) ELSE probes
+(* the top task of a computation is created by whatever task is executing at the moment of the call *)
+Born(i) == IF i = 1 - outer THEN [creator EXCEPT ![i] = active] ELSE creator
+
+(* ---- the earlier computation ---- *)
+PriorRun ==        \* P1 runs, creates and awaits P2; P2 runs until it awaits the batch item (or fails to suspend)
+  /\ pc = "prior"
+  /\ creator' = [creator EXCEPT ![P1] = active, ![P2] = P1]
+  /\ active' = NoTask /\ pc' = "prior_flush"
+  /\ UNCHANGED <<cfgvars, lvl, exc, probes, outcome>>
+PriorFlush ==      \* the batch is flushed (or raises); P2 is continued - or fails without running, if resume() raises -
+  /\ pc = "prior_flush"                                         \* and P1 gets P2's value or error
+  /\ active' = P1 /\ pc' = "prior_up"
+  /\ UNCHANGED <<cfgvars, lvl, creator, exc, probes, outcome>>
+PriorDeliver ==    \* the earlier computation is over, whatever its outcome: nothing is executing
+  /\ pc = "prior_up"
+  /\ active' = (IF Stale = 1 /\ prior = "resume_raises" THEN P2 ELSE NoTask)
+  /\ pc' = "down"
+  /\ UNCHANGED <<cfgvars, lvl, creator, exc, probes, outcome>>
 
 RaiseAt(i) == [kind |-> "E", origin |-> i, tb |-> IF style = "helper" THEN <<i, 0 - 1>> ELSE <<i>>]
 
 (* the body of level i starts: format_asynq_stack() is probed, the child task is created (creator = i) and awaited *)
 Enter == /\ pc = "down" /\ lvl < d
-         /\ probes' = AddProbe(lvl, "entry")
-         /\ creator' = [creator EXCEPT ![lvl + 1] = lvl]
+         /\ probes' = AddProbe(Born(lvl), lvl, "entry")
+         /\ active' = lvl
+         /\ creator' = [Born(lvl) EXCEPT ![lvl + 1] = lvl]        \* created while lvl is executing
          /\ lvl' = lvl + 1
-         /\ UNCHANGED <<d, r, mode, sync, style, outer, pc, exc, outcome>>
+         /\ UNCHANGED <<cfgvars, pc, exc, outcome>>
 
 (* the bottom level: (waits for a batch item if sync = 1,) probes, then raises (r = d) or returns *)
 Bottom == /\ pc = "down" /\ lvl = d
-          /\ probes' = AddProbe(d, "entry")
+          /\ probes' = AddProbe(Born(d), d, "entry")
+          /\ creator' = Born(d) /\ active' = d
           /\ exc' = IF r = d THEN RaiseAt(d) ELSE NoExc
           /\ pc' = "up" /\ lvl' = d - 1
-          /\ UNCHANGED <<d, r, mode, sync, style, outer, creator, outcome>>
+          /\ UNCHANGED <<cfgvars, outcome>>
 
 (* level lvl >= 1 gets the outcome of the child it awaits *)
 Up == /\ pc = "up" /\ lvl >= 1
@@ -81,22 +121,22 @@ Up == /\ pc = "up" /\ lvl >= 1
               /\ exc' = CASE m \in {"pass", "reraise"} -> [exc EXCEPT !.tb = <<lvl>> \o exc.tb]      \* gluing: this level's frame in front
                           [] m = "new" -> [kind |-> "N", origin |-> lvl, tb |-> <<lvl>>]
                           [] m = "catch" -> NoExc
-              /\ probes' = IF m = "pass" THEN probes ELSE AddProbe(lvl, "handler")
-      /\ lvl' = lvl - 1
-      /\ UNCHANGED <<d, r, mode, sync, style, outer, pc, creator, outcome>>
+              /\ probes' = IF m = "pass" THEN probes ELSE AddProbe(creator, lvl, "handler")
+      /\ lvl' = lvl - 1 /\ active' = lvl
+      /\ UNCHANGED <<cfgvars, pc, creator, outcome>>
 
 (* the outer task (level 0) called level 1 synchronously: a plain Python call, its frame is in front *)
 UpOuter == /\ pc = "up" /\ lvl = 0 /\ outer = 1
            /\ exc' = IF exc.kind = "none" THEN exc ELSE [exc EXCEPT !.tb = <<0>> \o exc.tb]
-           /\ lvl' = 0 - 1
-           /\ UNCHANGED <<d, r, mode, sync, style, outer, pc, creator, probes, outcome>>
+           /\ lvl' = 0 - 1 /\ active' = 0
+           /\ UNCHANGED <<cfgvars, pc, creator, probes, outcome>>
 
 Deliver == /\ pc = "up" /\ lvl = 0 - outer
            /\ outcome' = IF exc.kind = "none" THEN <<"val">> ELSE <<"err", exc.kind, exc.origin, exc.tb>>
-           /\ pc' = "done"
-           /\ UNCHANGED <<d, r, mode, sync, style, outer, lvl, creator, exc, probes>>
+           /\ pc' = "done" /\ active' = NoTask
+           /\ UNCHANGED <<cfgvars, lvl, creator, exc, probes>>
 
-Next == Enter \/ Bottom \/ Up \/ UpOuter \/ Deliver
+Next == PriorRun \/ PriorFlush \/ PriorDeliver \/ Enter \/ Bottom \/ Up \/ UpOuter \/ Deliver
 Spec == Init /\ [][Next]_vars
 
 (* ---- the property, on the model ---- *)
@@ -111,9 +151,13 @@ GluedAtCaller == (pc = "done" /\ outcome[1] = "err") =>
 (* C18.stack: a probe inside level i lists i and each task that created it, outermost first *)
 StackIsCreatorChain == \A n \in 1..Len(probes) :
            probes[n].stack = [j \in 1..(probes[n].lvl + outer) |-> j - outer]
+(* ... and nothing else: no task of an earlier computation, because between computations nothing is executing *)
+OwnTasksOnly == \A n \in 1..Len(probes) : \A j \in 1..Len(probes[n].stack) : probes[n].stack[j] \in (1 - outer)..d
+IdleBetweenComputations == (pc \in {"prior", "done"} \/ (pc = "down" /\ lvl = 1 - outer)) => active = NoTask
 CaughtMeansValue == pc = "done" => ((outcome[1] = "val") <=> (\E k \in 1..(r - 1) : mode[k] = "catch"))
 EveryLevelProbed == (pc = "done" /\ Deep = 0) => {probes[n].lvl : n \in {m \in 1..Len(probes) : probes[m].at = "entry"}} = (1 - outer)..d
 
 Export == (pc = "done") => PrintT(ToJson([d |-> d, r |-> r, mode |-> mode, sync |-> sync, style |-> style, outer |-> outer,
+                                          prior |-> prior, phandled |-> phandled,
                                           outcome |-> outcome, probes |-> probes]))
 =============================================================================
